@@ -69,10 +69,6 @@ func (s *composeSlice) emit(name string, pos int, att, exe int) {
 	}
 }
 
-func condFns[B any](text string, b B, onErr func(error), onType func(any), onRes func(int), onPred func(func(int, error) bool)) {
-	applyConds(text, onErr, onType, onRes, onPred)
-}
-
 func (s *composeSlice) build() {
 	s.built = true
 	for pos, t := range s.polLines {
@@ -83,8 +79,8 @@ func (s *composeSlice) build() {
 			if t[2] == "1" {
 				b.ReturnLastFailure()
 			}
-			applyConds(t[3], func(e error) { b.HandleErrors(e) }, func(a any) { b.HandleErrorTypes(a) }, func(r int) { b.HandleResult(r) }, func(p func(int, error) bool) { b.HandleIf(p) })
-			applyConds(t[4], func(e error) { b.AbortOnErrors(e) }, func(a any) { b.AbortOnErrorTypes(a) }, func(r int) { b.AbortOnResult(r) }, func(p func(int, error) bool) { b.AbortIf(p) })
+			applyConds(t[3], func(e ...error) { b.HandleErrors(e...) }, func(a ...any) { b.HandleErrorTypes(a...) }, func(r int) { b.HandleResult(r) }, func(p func(int, error) bool) { b.HandleIf(p) })
+			applyConds(t[4], func(e ...error) { b.AbortOnErrors(e...) }, func(a ...any) { b.AbortOnErrorTypes(a...) }, func(r int) { b.AbortOnResult(r) }, func(p func(int, error) bool) { b.AbortIf(p) })
 			b.OnFailure(func(e failsafe.ExecutionEvent[int]) { s.emit("rp.onFailure", pos, e.Attempts(), e.Executions()) }).
 				OnSuccess(func(e failsafe.ExecutionEvent[int]) { s.emit("rp.onSuccess", pos, e.Attempts(), e.Executions()) }).
 				OnAbort(func(e failsafe.ExecutionEvent[int]) { s.emit("rp.onAbort", pos, e.Attempts(), e.Executions()) }).
@@ -108,7 +104,7 @@ func (s *composeSlice) build() {
 			} else {
 				b = fallback.BuilderWithError[int](parseErrTree(t[2]))
 			}
-			applyConds(t[3], func(e error) { b.HandleErrors(e) }, func(a any) { b.HandleErrorTypes(a) }, func(r int) { b.HandleResult(r) }, func(p func(int, error) bool) { b.HandleIf(p) })
+			applyConds(t[3], func(e ...error) { b.HandleErrors(e...) }, func(a ...any) { b.HandleErrorTypes(a...) }, func(r int) { b.HandleResult(r) }, func(p func(int, error) bool) { b.HandleIf(p) })
 			b.OnFailure(func(e failsafe.ExecutionEvent[int]) { s.emit("fb.onFailure", pos, e.Attempts(), e.Executions()) }).
 				OnSuccess(func(e failsafe.ExecutionEvent[int]) { s.emit("fb.onSuccess", pos, e.Attempts(), e.Executions()) }).
 				OnFallbackExecuted(func(e failsafe.ExecutionDoneEvent[int]) { s.emit("fb.onFallbackExecuted", pos, e.Attempts(), e.Executions()) })
@@ -133,7 +129,7 @@ func (s *composeSlice) build() {
 			s.policies = append(s.policies, to)
 		case "hedge":
 			b := hedgepolicy.BuilderWithDelay[int](composeHedgeDelay).WithMaxHedges(int(atoi(t[1])))
-			applyConds(t[2], func(e error) { b.CancelOnErrors(e) }, func(a any) { b.CancelOnErrorTypes(a) }, func(r int) { b.CancelOnResult(r) }, func(p func(int, error) bool) { b.CancelIf(p) })
+			applyConds(t[2], func(e ...error) { b.CancelOnErrors(e...) }, func(a ...any) { b.CancelOnErrorTypes(a...) }, func(r int) { b.CancelOnResult(r) }, func(p func(int, error) bool) { b.CancelIf(p) })
 			b.OnHedge(func(e failsafe.ExecutionEvent[int]) { s.emit("hp.onHedge", pos, e.Attempts(), e.Executions()) })
 			s.policies = append(s.policies, b.Build())
 		}
@@ -213,7 +209,7 @@ func (s *composeSlice) exec(t []string) string {
 		if t[1] == "breaker" {
 			id := int(atoi(t[2]))
 			b := s.breakerBuilders[id]
-			applyConds(t[3], func(e error) { b.HandleErrors(e) }, func(a any) { b.HandleErrorTypes(a) }, func(r int) { b.HandleResult(r) }, func(p func(int, error) bool) { b.HandleIf(p) })
+			applyConds(t[3], func(e ...error) { b.HandleErrors(e...) }, func(a ...any) { b.HandleErrorTypes(a...) }, func(r int) { b.HandleResult(r) }, func(p func(int, error) bool) { b.HandleIf(p) })
 			s.breakers[id] = b.Build()
 		}
 		if t[1] == "hedge" {
